@@ -22,7 +22,7 @@ import (
 const (
 	firstTimeout  = 20 * time.Second
 	secondTimeout = 60 * time.Second
-	hostileEvery  = 20 // case i is a "hostile" case when i%hostileEvery == hostileEvery-1
+	hostileEvery  = 8 // case i is a "hostile" case when i%hostileEvery == hostileEvery-1
 )
 
 func init() {
@@ -34,7 +34,7 @@ func init() {
 			"Each exec.NewOutputModuleGraph call runs under a 20 s timer (60 s on retry). On success the harness checks, with its own reachability over the protobuf (inputs in get and deltas mode + block-filter module): " +
 			"every needed module in exactly one layer; every module it reads from in a strictly earlier layer of the flattened stage/layer order; no unneeded module in StagedUsedModules/UsedModules/Stores; layers homogeneous (stores | non-stores); " +
 			"a store layer is the last layer of its stage and every stage but the last ends with a store layer; with the initial blocks of ModulesInitBlocks() every module has an input that exists at its initial block (source/clock/params always exist; map/store input exists from its module's initial block). " +
-			"An error on a valid graph at first streamable block 0 is a violation. Every 20th case is a 'hostile' graph (one rule of the manifest broken but accepted by service.ValidateTier1Request/ValidateTier2Request): only termination and, on success, the same invariants are judged. " +
+			"An error on a valid graph at first streamable block 0 is a violation. Every 8th case is a 'hostile' graph (one rule of the manifest broken but accepted by service.ValidateTier1Request/ValidateTier2Request): only termination and, on success, the same invariants are judged. " +
 			"non-trivial = (graph, output) whose staging has >= 2 stages and >= 3 needed modules; distinct by (graph rendering, output)",
 		Assumptions: []string{
 			"a valid graph is what harness/gen/modgraph_b.go MGOwnCheck states (manifest rules + request validation rules + one input available at the initial block, params counting only for params-only modules) and manifest.ValidateModules + manifest.NewModuleGraph accept",
@@ -46,7 +46,7 @@ func init() {
 			if tier == "thorough" {
 				return 200000
 			}
-			return 3000
+			return 12000
 		},
 		MinNontrivial: 1000,
 		CaseTimeout:   200 * time.Second,
